@@ -898,6 +898,13 @@ func (p *pendingReadIndex) add(sys pb.SystemCtx, reqs []*RequestState) {
 	p.mu.Lock()
 	defer p.mu.Unlock()
 	if p.stopped {
+		// requests taken from the queue just before close() are no longer in the
+		// queue and not yet in a batch, terminate them here
+		for _, req := range reqs {
+			if req != nil {
+				req.terminated()
+			}
+		}
 		return
 	}
 	if _, ok := p.batches[sys]; ok {
